@@ -30,7 +30,7 @@ Idle == [phase |-> "idle", op |-> "r", node |-> "", val |-> InitVal, res |-> Ini
 RInit == /\ reg = [n \in Nodes |-> InitVal]
          /\ st = [c \in Clients |-> Idle]
 
-\* client c invokes  op ("r" | "w")  on node n;  v is the value to write (ignored for reads)
+\* client c invokes  op ("r" | "w" | "n" = a write that is going to be refused)  on node n;  v is the value to write (ignored for reads)
 Call(c, op, n, v) ==
     /\ st[c].phase = "idle"
     /\ st' = [st EXCEPT ![c] = [phase |-> "called", op |-> op, node |-> n, val |-> v, res |-> InitVal]]
@@ -42,11 +42,13 @@ Lin(c) ==
     /\ st[c].phase \in {"called", "ghost"}
     /\ LET o == st[c]
            ph == IF o.phase = "called" THEN "lin" ELSE "dead"
-       IN IF o.op = "w"
-          THEN /\ reg' = [reg EXCEPT ![o.node] = o.val]
-               /\ st' = [st EXCEPT ![c].phase = ph]
-          ELSE /\ UNCHANGED reg
-               /\ st' = [st EXCEPT ![c].phase = ph, ![c].res = reg[o.node]]
+       IN CASE o.op = "w" -> /\ reg' = [reg EXCEPT ![o.node] = o.val]
+                             /\ st' = [st EXCEPT ![c].phase = ph]
+            [] o.op = "r" -> /\ UNCHANGED reg
+                             /\ st' = [st EXCEPT ![c].phase = ph, ![c].res = reg[o.node]]
+            \* "n": a write the server refuses (Bad status, e.g. a read-only node): no effect
+            [] OTHER      -> /\ UNCHANGED reg
+                             /\ st' = [st EXCEPT ![c].phase = ph]
 
 \* the operation of c returns successfully; a read returns v
 Ret(c, v) ==
